@@ -313,7 +313,11 @@ func (w *world) deliver(p *pendingReq, kind string) {
 		if j == i {
 			j = 1 + ((i + 1) % (len(w.hdrs) - 1))
 		}
-		hdr, txs = w.hdrs[j], w.txs[j]
+		if j == i { // there is no other block in this history: fail by dropping instead
+			kind = "drop"
+		} else {
+			hdr, txs = w.hdrs[j], w.txs[j]
+		}
 	}
 	n := len(txs)
 	send := n
